@@ -280,7 +280,7 @@ TypeOK == /\ mode \in {"set", "tup", "arith"}
 \* Behaviour export (complete behaviours only: every prefix is read back on the way)
 Emit ==
     /\ (mode = "set" /\ Len(hist) = MaxOps) =>
-          PrintT(<<"SET", ToJson([kind |-> kind, n |-> N, h |-> HFix, t |-> TFix,
+          PrintT(<<"SET", ToJson([kind |-> kind, n |-> N, hfix |-> HFix, tfix |-> TFix,
                                   dim |-> IF kind.ad = "none" THEN Dim(kind.el) ELSE 0,
                                   init |-> SetInit(kind), initreads |-> ReadAll(kind, SetInit(kind)),
                                   calls |-> hist])>>)
